@@ -102,6 +102,20 @@ Definition gslots' (c : gcircuit) (g : nat) : list gedge :=
 Definition impl_srcs (c : gcircuit) : list nat := map gsrc (gedges c).
 Definition spec_srcs (c : gcircuit) : list nat := map gsrc (gedges c).
 
+(* Connectivity(weights, delays, spread) — _add_matrix_delay, ODE cascade: one cascade per source unit with
+   n = max(1, int(round((delay/spread)**2))), a = n/delay (dde_approx is not consulted when a spread is given); target = W . z_n.
+   A population circuit is represented by its expansion: one edge per matrix entry, all with the same (delay, spread). *)
+Definition conn_params (c : gcircuit) : list (nat * Qc) :=
+  map (fun e => match gd e with
+                | Some (d, Some s) => let n := Nat.max 1 (Z.to_nat (round_half_even (sq (d / s)))) in (n, (of_nat n / d)%Qc)
+                | _ => (O, 0%Qc)
+                end) (gedges c).
+Definition g_conn (c : gcircuit) : bool :=
+  Nat.eqb (gdde c) 0 &&
+  forallb (fun e => match gd e with
+                    | Some (d, Some s) => Nat.leb 1 (Z.to_nat (round_half_even (sq (d / s))))
+                    | _ => false end) (gedges c).
+
 (* the augmented ODE system: state = node values xs ++ one chain per edge (zs, in edge order);
    ps = (order, rate) per edge, srcs = the node each edge's chain is driven by *)
 Definition edge_dz (xs : list Qc) (src : nat) (p : nat * Qc) (z : list Qc) : list Qc :=
@@ -128,6 +142,7 @@ Definition run_params (c : gcircuit) (ps : list (nat * Qc)) (srcs : list nat) (n
 Definition gimpl_run (c : gcircuit) (n : nat) : res :=
   if gcrashes c then ErrIndex else Ok (run_params c (impl_params c) (impl_srcs c) n).
 Definition gspec_run (c : gcircuit) (n : nat) : list (list Qc) := run_params c (spec_params c) (spec_srcs c) n.
+Definition gconn_run (c : gcircuit) (n : nat) : list (list Qc) := run_params c (conn_params c) (spec_srcs c) n.
 
 (* ---- explicit grouping bookkeeping (slot indices and source indices of every chain; write-back) ---- *)
 (* slots: (key, source unit) per slot index; chains: first-appearance buckets of slot indices *)
